@@ -238,3 +238,51 @@ def validate_evidence(ev):
     if lvl == "model_checking":
         if cov["states"] < 1 or cov["transitions"] < 1 or not cov["samples"]:
             raise MachineryError("evidence coverage is vacuous")
+
+
+def standard_walk(chk, exe, args, key_of, rule, what_of=None, env_extra=None, merge=False):
+    """Runs a shard-walk engine, classifies its violations, fills exploration-style coverage.
+    With merge=True, accumulates into existing coverage (several engine runs in one check)."""
+    res = run_engine(exe, args, env_extra=env_extra)
+    if "_died" in res:
+        culprits = bisect_death(exe, args, res, env_extra=env_extra)
+        if not culprits:
+            chk.machinery(f"engine {args} died rc={res['_died']} and no culprit input was isolated: {res['stderr_tail'][-400:]}")
+            return None
+        for kind, idx in culprits:
+            chk.violation(f"{kind}", {"index": idx, "engine_args": args}, f"{kind} on enumerated input #{idx} of {args}")
+        chk.coverage.setdefault("evaluations", 0)
+        chk.coverage["exhaustive"] = False
+        return None
+    for v in res["violations"]:
+        k = key_of(v)
+        w = what_of(v) if what_of else f"{v.get('kind')} on {str(v.get('input'))[:120]!r}: {str(v.get('detail'))[:200]}"
+        chk.violation(k, v, w)
+    if res.get("violations_total", 0) > len(res["violations"]):
+        chk.assumptions.append(f"{args[0]}: {res['violations_total']} violating inputs, first {len(res['violations'])} classified by key")
+    cov = chk.coverage
+    if merge and "evaluations" in cov:
+        cov["evaluations"] += res["evaluations"]
+        cov["distinct_nontrivial"] += res["distinct_classes"]
+        cov["samples"] = (cov["samples"] + res["samples"])[:8]
+        cov.setdefault("runs", []).append({"args": args, "evaluations": res["evaluations"], "counters": res["counters"], "space": res.get("space")})
+        cov["violating_inputs"] += res.get("violations_total", 0)
+    else:
+        cov.update({
+            "evaluations": res["evaluations"],
+            "distinct_nontrivial": res["distinct_classes"],
+            "rule": rule,
+            "samples": res["samples"],
+            "exhaustive": True,
+            "runs": [{"args": args, "evaluations": res["evaluations"], "counters": res["counters"], "space": res.get("space")}],
+            "violating_inputs": res.get("violations_total", 0),
+        })
+    return res
+
+
+def write_tmp(name, text):
+    os.makedirs(BUILD, exist_ok=True)
+    p = os.path.join(BUILD, name)
+    with open(p, "w") as f:
+        f.write(text)
+    return p
